@@ -20,9 +20,11 @@ package grpcgcp
 
 import (
 	"context"
+	"errors"
 	"sync"
 
 	"google.golang.org/grpc"
+	"google.golang.org/grpc/metadata"
 	"google.golang.org/grpc/status"
 )
 
@@ -121,7 +123,18 @@ func (cs *gcpClientStream) SendMsg(m interface{}) error {
 func (cs *gcpClientStream) RecvMsg(m interface{}) error {
 	// If RecvMsg is called before SendMsg, it should wait until cs.ClientStream
 	// is initialized or the initialization failed or the context is done.
+	realCS, err := cs.waitForStream()
+	if err != nil {
+		return err
+	}
+	return realCS.RecvMsg(m)
+}
+
+// waitForStream waits until the underlying ClientStream is created by SendMsg
+// or the creation failed or the context is done.
+func (cs *gcpClientStream) waitForStream() (grpc.ClientStream, error) {
 	cs.Lock()
+	defer cs.Unlock()
 	if cs.initStreamErr == nil && cs.ClientStream == nil {
 		// Wake up the waiting loop below when the context is done.
 		stop := make(chan struct{})
@@ -138,15 +151,52 @@ func (cs *gcpClientStream) RecvMsg(m interface{}) error {
 	}
 	for cs.initStreamErr == nil && cs.ClientStream == nil {
 		if err := cs.ctx.Err(); err != nil {
-			cs.Unlock()
-			return status.FromContextError(err).Err()
+			return nil, status.FromContextError(err).Err()
 		}
 		cs.cond.Wait()
 	}
 	if cs.initStreamErr != nil {
-		cs.Unlock()
-		return cs.initStreamErr
+		return nil, cs.initStreamErr
 	}
-	cs.Unlock()
-	return cs.ClientStream.RecvMsg(m)
+	return cs.ClientStream, nil
+}
+
+// stream returns the underlying ClientStream or nil if it is not created yet.
+func (cs *gcpClientStream) stream() grpc.ClientStream {
+	cs.Lock()
+	defer cs.Unlock()
+	return cs.ClientStream
+}
+
+// The methods below are promoted from the embedded ClientStream which is nil
+// until the first SendMsg, so they need to handle that.
+
+// Header waits for the underlying ClientStream the same way RecvMsg does.
+func (cs *gcpClientStream) Header() (metadata.MD, error) {
+	realCS, err := cs.waitForStream()
+	if err != nil {
+		return nil, err
+	}
+	return realCS.Header()
+}
+
+func (cs *gcpClientStream) Trailer() metadata.MD {
+	if realCS := cs.stream(); realCS != nil {
+		return realCS.Trailer()
+	}
+	return nil
+}
+
+func (cs *gcpClientStream) CloseSend() error {
+	if realCS := cs.stream(); realCS != nil {
+		return realCS.CloseSend()
+	}
+	return errors.New("grpcgcp: CloseSend called before the stream is created by the first SendMsg")
+}
+
+func (cs *gcpClientStream) Context() context.Context {
+	if realCS := cs.stream(); realCS != nil {
+		return realCS.Context()
+	}
+	return cs.ctx
 }
